@@ -11,7 +11,7 @@
 (* of a framework is the product of those of its components is theorem     *)
 (* Product of MCDung.                                                      *)
 (***************************************************************************)
-EXTENDS Dung, TLC, Json, IOUtils, SequencesExt, FiniteSetsExt
+EXTENDS Dung, Cli, TLC, Json, IOUtils, SequencesExt, FiniteSetsExt
 Rec == ndJsonDeserialize(IOEnv.TRACE)
 
 VARIABLES l, af, ids, comps, famc
@@ -91,6 +91,34 @@ JudgeFrame(e) == Report("C06:framework_unchanged", e.same)
 (* C06: all configurations / positions / repetitions of one query agree *)
 JudgeAgree(e) == Report("C06:agree", Cardinality(ToSet(e.statuses)) <= 1)
 
+(* C05: one run of a real binary; e.inv is the abstract invocation (MCCli), Outcome / ShapeOK come from Cli.tla *)
+JudgeCli(e) ==
+  LET inv == e.inv
+      out == Outcome(inv)
+      A == ToSet(e.args)
+      cred == inv.kind = "DC"
+      ref == IF cred THEN CredC(e.sem, A) ELSE SkepC(e.sem, A)
+      promised == IF cred THEN ref ELSE ~ref
+      W == ToSet(e.wargs)
+      cs == IF e.sem = "PR" /\ cred THEN "CO" ELSE e.sem
+  IN
+  /\ Report("C05:terminates", ~e.timeout)
+  \* an error message is not an answer: no status line and no witness line (error text, also clap's multi-line usage, is allowed)
+  /\ out = "refusal" => /\ Report("C05:error_exit_status_nonzero", e.exit # 0)
+                        /\ Report("C05:error_prints_no_answer", e.status = "" /\ ~e.wline)
+  /\ (out = "answer" /\ e.exit = 0 /\ inv.log = "off") => Report("C05:nothing_but_the_answer_when_logging_is_off", e.nlog = 0)
+  /\ out = "answer" =>
+       /\ Report("C05:answer_exit_status_zero", e.exit = 0)
+       /\ e.exit = 0 =>
+            /\ Report("C05:answer_shape", ~e.malformed /\ ShapeOK(inv, e.nlines, e.status, e.wline, promised))
+            /\ (~e.malformed /\ inv.kind = "SE") =>
+                 Report("C05:answer_content", IF e.wline THEN InFam(W, e.sem) /\ Len(e.wargs) = Cardinality(W) ELSE FamEmpty(e.sem))
+            /\ (~e.malformed /\ inv.kind # "SE") =>
+                 /\ Report("C05:answer_content", (e.status = "YES") = ref)
+                 /\ e.wline => Report("C05:answer_content", /\ InFam(W, cs) /\ Len(e.wargs) = Cardinality(W)
+                                                            /\ (IF cred THEN W \cap A # {} ELSE W \cap A = {}))
+JudgeProblems(e) == Report("C05:problems_listed", e.exit = 0 /\ ToSet(e.listed) = Problems /\ Len(e.listed) = 21)
+
 Next ==
   /\ l <= Len(Rec)
   /\ l' = l + 1
@@ -107,6 +135,8 @@ Next ==
              [] e.ev = "cc" -> JudgeCc(e)
              [] e.ev = "frame" -> JudgeFrame(e)
              [] e.ev = "agree" -> JudgeAgree(e)
+             [] e.ev = "cli" -> JudgeCli(e)
+             [] e.ev = "problems" -> JudgeProblems(e)
              [] OTHER -> TRUE
 
 Spec == Init /\ [][Next]_vars
